@@ -589,6 +589,14 @@ fn c11() -> Property {
                 cases_per_seed: 1,
                 note: "real listener <-> scripted peer that sends a second begin on a channel whose session it has not ended: the channel must not get a second session",
             },
+            Variant {
+                name: "end-then-begin-on-the-same-channel",
+                weight: 1,
+                make: || Box::pin(scen::c11r::run_end_then_begin_on_the_same_channel()),
+                max_steps: 3_000_000,
+                cases_per_seed: 1,
+                note: "scripted peer against a real listener: the peer ends its session and begins the next one on the same channel in one write, 2-5 times, with a link and a message per round: the channel is free for the peer once its end is sent, every begin is answered and every message reaches the link of its own round's session",
+            },
         ],
         quick_runs: 5_000,
         thorough_runs: 200_000,
